@@ -81,3 +81,4 @@ META = dict(
     design_ref="DESIGN.md §4 C07",
     technique="CBMC bounded symbolic execution of real parser/resolver code over symbolic inputs, unwinding assertions as termination check, SAT",
 )
+META["text"] += ' Inputs now include tar header records (read_header state machine), PAX record blocks (framing), sparse map strings and arbitrary sparse maps under the member stream.'
